@@ -72,8 +72,11 @@ static void gen_case(const struct rimpl *im, int vects, int len, int pl, int imp
 		arr[nsrc + 1] = Q;
 	}
 	int r = -999;
+	/* every kernel call is made with all caller-saved vector/mask registers poisoned (all-ones or a5, by placement): the result
+	 * must not depend on what an earlier call left in a register the ABI does not preserve */
+	v_pcall_mode = 1 + (pl == 1);
 	if (V_TRY()) {
-		r = im->f(vects, len, arr);
+		r = (int)PCALL(im->f, vects, len, arr);
 		V_END();
 	} else {
 		snprintf(key, sizeof key, "%s fault vects=%d len=%d pl=%d", im->name, vects, len, pl);
@@ -116,7 +119,7 @@ static void check_case(const struct rimpl *im, int vects, int len, int pl, int c
 	ref_pq(v, nsrc, len, v[nsrc], npar == 2 ? v[nsrc + 1] : NULL);
 	int r = -999;
 	if (V_TRY()) {
-		r = im->f(vects, len, arr);
+		r = (int)PCALL(im->f, vects, len, arr);
 		v_eval();
 		if (r != 0) {
 			snprintf(key, sizeof key, "%s false-alarm vects=%d len=%d pl=%d", im->name, vects, len, pl);
@@ -129,7 +132,7 @@ static void check_case(const struct rimpl *im, int vects, int len, int pl, int c
 				for (int pos = 0; pos < len; pos++)
 					for (int fi = 0; fi < 3; fi++) {
 						v[i][pos] ^= flips[fi];
-						r = im->f(vects, len, arr);
+						r = (int)PCALL(im->f, vects, len, arr);
 						v[i][pos] ^= flips[fi];
 						v_eval();
 						if (r == 0) {
@@ -169,7 +172,7 @@ static void below_min(const struct rimpl *im)
 		for (int len = 0; len <= 64; len += 32) {
 			int r = -999;
 			if (V_TRY()) {
-				r = im->f(vects, len, nowhere);
+				r = (int)PCALL(im->f, vects, len, nowhere);
 				V_END();
 				v_eval();
 				if (r == 0) {
@@ -202,7 +205,7 @@ static void recovery(const struct rimpl *im, int vects, int len)
 		g_reset();
 		return;
 	}
-	im->f(vects, len, arr);
+	(void)PCALL(im->f, vects, len, arr);
 	V_END();
 	uint8_t g[VMAX];
 	g[0] = 1;
